@@ -9,10 +9,10 @@
     with flat axis [f], [gline x0 r i] = x0 + i * r.
     [wall_ok q p f c]: f < 3, all four vertices have coordinate c on axis f, 0 < p,
     p <= size q (px f), p <= size q (py f). *)
-From Coq Require Import List Arith Bool.
+From Coq Require Import List Arith Bool Permutation.
 Import ListNotations.
 From SV Require Import Base.Ops Base.Arr Base.Sums Model.Vec3 Model.Tiling
-  Proofs.OrderField Proofs.TilingLists Proofs.TilingProofs.
+  Proofs.OrderField Proofs.TilingLists Proofs.TilingProofs Proofs.TilingPerm.
 
 (** (1) count: the flat axis is detected ([ttrunc (0/p) = 0], the two others >= 1), there are
     n_x * n_y patches and [_total_number_of_patches] agrees *)
@@ -187,3 +187,98 @@ Print Assumptions C08_translate.
 Theorem C08_kang_same {T} {O : Ops T} (q : @quad T) p : kang_patches q p = create_patches q p.
 Proof. exact (kang_same q p). Qed.
 Print Assumptions C08_kang_same.
+
+(** (7) the 48 signed axis permutations
+    [m v = (e0 * v[sigma 0], e1 * v[sigma 1], e2 * v[sigma 2])], [sigma] a permutation of {0,1,2},
+    every [e_k] in {1,-1}; [map_quad m q] = the wall with [m] applied to its four vertices.
+    The image of a wall of the property's domain is again one: its flat axis is the [f'] with
+    [sigma f' = f] (found by the code from the exact zero extent), its flat coordinate [e_f' * c];
+    extent, count [int(size/p)] and cell size of axis [d] of the image are those of axis [sigma d]
+    of the wall (the two in-plane counts are exchanged with the axes); and the list of patches of
+    the image wall is a PERMUTATION of the images of the wall's patches, each image taken in one
+    of the 8 vertex orders [reorder o] -- the same [o] for all patches of the wall.
+    Ordered field: under a mirroring the cell edges are computed from the new minimum
+    [-(x_max)], and [-(x_max) + (n-1-i) s = -(x_min + (i+1) s)] needs [x_max = x_min + n (size/n)]. *)
+Theorem C08_axis_permutation {T} {O : Ops T} {RL : RingLaws T} {OL : OrderLaws T} {FL : FieldLaws T}
+    {FlL : FloorLaws T} (sigma : nat -> nat) (e0 e1 e2 : T) (q : @quad T) p f c :
+  Permutation [sigma 0; sigma 1; sigma 2] [0; 1; 2] ->
+  (e0 = 1 \/ e0 = - (1))%T -> (e1 = 1 \/ e1 = - (1))%T -> (e2 = 1 \/ e2 = - (1))%T ->
+  wall_ok q p f c ->
+  let m := fun v : @vec T =>
+    mkv (e0 * vget v (sigma 0%nat))%T (e1 * vget v (sigma 1%nat))%T (e2 * vget v (sigma 2%nat))%T in
+  let e := fun d : nat => match d with 0 => e0 | 1 => e1 | _ => e2 end in
+  exists f' o, f' < 3 /\ sigma f' = f /\ o < 8 /\
+    wall_ok (map_quad m q) p f' (e f' * c)%T /\
+    (forall d, d < 3 -> size (map_quad m q) d = size q (sigma d) /\
+                        patch_num (map_quad m q) p d = patch_num q p (sigma d) /\
+                        real_size (map_quad m q) p d = real_size q p (sigma d)) /\
+    Permutation (create_patches (map_quad m q) p)
+                (map (fun Q => reorder o (map_quad m Q)) (create_patches q p)).
+Proof.
+  exact (fun Hp H0 H1 H2 => tiling_signed_perm sigma e0 e1 e2 Hp H0 H1 H2 q p f c).
+Qed.
+Print Assumptions C08_axis_permutation.
+
+(** (7a) the renumbering, written out.  [sw]: [sigma] exchanges the two in-plane axes; [sx] / [sy]:
+    the sign attached to the new first / second in-plane axis is -1 ([sgn_is true e] is [e = -1],
+    [sgn_is false e] is [e = 1]).  Patch (i,j) of the wall (list index [i * ny + j]) goes to the
+    patch of the image wall whose index on an axis is [i] or, under a mirroring, [n - 1 - i]
+    ([flip]), rows and columns exchanged if [sw]; its four vertices are reordered by
+    [ord_of sw sx sy] (a table of the 8 orders). *)
+Theorem C08_axis_permutation_index {T} {O : Ops T} {RL : RingLaws T} {OL : OrderLaws T}
+    {FL : FieldLaws T} {FlL : FloorLaws T} (sigma : nat -> nat) (e0 e1 e2 : T) (q : @quad T) p f c :
+  Permutation [sigma 0; sigma 1; sigma 2] [0; 1; 2] ->
+  (e0 = 1 \/ e0 = - (1))%T -> (e1 = 1 \/ e1 = - (1))%T -> (e2 = 1 \/ e2 = - (1))%T ->
+  wall_ok q p f c ->
+  let m := fun v : @vec T =>
+    mkv (e0 * vget v (sigma 0%nat))%T (e1 * vget v (sigma 1%nat))%T (e2 * vget v (sigma 2%nat))%T in
+  let e := fun d : nat => match d with 0 => e0 | 1 => e1 | _ => e2 end in
+  exists f' (sw sx sy : bool), f' < 3 /\ sigma f' = f /\
+    (if sw then sigma (px f') = py f /\ sigma (py f') = px f
+     else sigma (px f') = px f /\ sigma (py f') = py f) /\
+    sgn_is sx (e (px f')) /\ sgn_is sy (e (py f')) /\
+    let nx := patch_num q p (px f) in
+    let ny := patch_num q p (py f) in
+    patch_num (map_quad m q) p (px f') = (if sw then ny else nx) /\
+    patch_num (map_quad m q) p (py f') = (if sw then nx else ny) /\
+    forall i j d, i < nx -> j < ny ->
+      nth (if sw then flip sx ny j * nx + flip sy nx i else flip sx nx i * ny + flip sy ny j)
+          (create_patches (map_quad m q) p) d
+      = reorder (ord_of sw sx sy) (map_quad m (nth (i * ny + j) (create_patches q p) d)).
+Proof.
+  exact (fun Hp H0 H1 H2 => tiling_signed_perm_index sigma e0 e1 e2 Hp H0 H1 H2 q p f c).
+Qed.
+Print Assumptions C08_axis_permutation_index.
+
+(** (7b) each patch seen through its vertices only: some renumbering [L] of the patches of the
+    image wall has, entry by entry and up to the order within the patch, the images of the
+    vertices of the wall's patches *)
+Theorem C08_axis_permutation_vertices {T} {O : Ops T} {RL : RingLaws T} {OL : OrderLaws T}
+    {FL : FieldLaws T} {FlL : FloorLaws T} (sigma : nat -> nat) (e0 e1 e2 : T) (q : @quad T) p f c :
+  Permutation [sigma 0; sigma 1; sigma 2] [0; 1; 2] ->
+  (e0 = 1 \/ e0 = - (1))%T -> (e1 = 1 \/ e1 = - (1))%T -> (e2 = 1 \/ e2 = - (1))%T ->
+  wall_ok q p f c ->
+  let m := fun v : @vec T =>
+    mkv (e0 * vget v (sigma 0%nat))%T (e1 * vget v (sigma 1%nat))%T (e2 * vget v (sigma 2%nat))%T in
+  exists L, Permutation (create_patches (map_quad m q) p) L /\
+    Forall2 (fun Q' Q => Permutation (verts Q') (map m (verts Q))) L (create_patches q p).
+Proof.
+  exact (fun Hp H0 H1 H2 => tiling_signed_perm_vertices sigma e0 e1 e2 Hp H0 H1 H2 q p f c).
+Qed.
+Print Assumptions C08_axis_permutation_vertices.
+
+(** (7c) the Kang engine's loop builds the same list ((6)), so the same holds for it *)
+Theorem C08_kang_axis_permutation {T} {O : Ops T} {RL : RingLaws T} {OL : OrderLaws T}
+    {FL : FieldLaws T} {FlL : FloorLaws T} (sigma : nat -> nat) (e0 e1 e2 : T) (q : @quad T) p f c :
+  Permutation [sigma 0; sigma 1; sigma 2] [0; 1; 2] ->
+  (e0 = 1 \/ e0 = - (1))%T -> (e1 = 1 \/ e1 = - (1))%T -> (e2 = 1 \/ e2 = - (1))%T ->
+  wall_ok q p f c ->
+  let m := fun v : @vec T =>
+    mkv (e0 * vget v (sigma 0%nat))%T (e1 * vget v (sigma 1%nat))%T (e2 * vget v (sigma 2%nat))%T in
+  exists o, o < 8 /\
+    Permutation (kang_patches (map_quad m q) p)
+                (map (fun Q => reorder o (map_quad m Q)) (kang_patches q p)).
+Proof.
+  exact (fun Hp H0 H1 H2 => kang_signed_perm sigma e0 e1 e2 Hp H0 H1 H2 q p f c).
+Qed.
+Print Assumptions C08_kang_axis_permutation.
